@@ -146,7 +146,8 @@ def _pos_from_mask(owner_index, mask):
             vals = mask.v
         else:
             if not (mask.index.unique_labels() and owner_index.unique_labels()):
-                raise ValueError('cannot reindex on an axis with duplicate labels')
+                raise IndexError('Unalignable boolean Series provided as indexer (index of the boolean Series and of '
+                                 'the indexed object do not match).')
             vals = []
             for l in owner_index.l:
                 hit = [v for ml, v in zip(mask.index.l, mask.v) if _lab_eq(ml, l)]
